@@ -1,18 +1,39 @@
 """Engine.tla (composed run loop + plugin steps + fallback detector + bounded error channel) as the model part of the
-engine-level checks.  The model is explored exhaustively per workflow family; a violation found in the MODEL is never
-a verdict about the code (exit 2, inconclusive: the model predicts something that must be reproduced on the real engine
-before it counts).  Two deliberately broken variants of the model are also run in the thorough tier: each must violate
-its invariant, which shows that the invariants are not vacuous and documents the two repairs the model led to
-(seeded/R-C01-blocking-error-send, seeded/R-C09-deploy-wait-unchecked are the same regressions on the real code)."""
+engine-level checks, and its binding to the code.
+
+1. model_part: exhaustive exploration per workflow family (atomic handlers and split handlers).  A violation found in
+   the MODEL is never a verdict about the code (exit 2, inconclusive: a prediction to be reproduced on the engine).
+   Two deliberately broken variants are run in the thorough tier: each must violate its invariant (non-vacuity; they
+   are the models of the engine before two repairs, seeded/R-C01-*, seeded/R-C09-* are the same regressions in code).
+2. strict_part: recorded executions of the real engine on the model's workflow families (random outcomes, cancellation,
+   noise, stalls at every gate, cancellation at every hook point) must be behaviours of Engine.tla in split-handler
+   mode (spec/trace/EngineStrict.tla, one recorded event = one model action, unlogged actions inferred).  A rejected
+   trace means model and code have drifted apart: it is reported as DRIFT (evidence, not a verdict), because a harmless
+   refactoring of the engine may legitimately change the order of its internal steps.  The self-test corrupts accepted
+   traces; a corrupted trace that is still accepted means the binding is lost (inconclusive)."""
+import concurrent.futures as cf
+import json
+import os
+import random
+import re
+import shutil
+import subprocess
+
+import gen
+import strict
 import vlib
+from vlib import lit, ref, tmap
 
 CFG = '''SPECIFICATION %(spec)s
 CONSTANTS
  Family = "%(family)s"
- ErrCap = 2
- Retries = 1
+ ErrCap = %(errcap)d
+ Retries = %(retries)d
  AllowCancel = %(cancel)s
  DeployWaitChecked = %(dwc)s
+ AllOutcomes = %(allout)s
+ DetCap = %(detcap)d
+ SplitHandlers = %(split)s
  BlockingErrors = %(blocking)s
 %(props)s
 CHECK_DEADLOCK FALSE
@@ -26,14 +47,18 @@ SAFETY = {
 }
 
 
-def run_one(ctx, family, invariants, cancel, liveness=False, dwc=True, blocking=False, timeout_s=1500, workers=None):
+def B(x):
+    return 'TRUE' if x else 'FALSE'
+
+
+def run_one(ctx, family, invariants, cancel, liveness=False, dwc=True, blocking=False, split=False, errcap=2, timeout_s=1500, workers=None):
     props = ''
     if invariants:
         props += 'INVARIANTS ' + ' '.join(invariants) + '\n'
     if liveness:
         props += 'PROPERTY Terminates\n'
-    cfg = CFG % {'spec': 'FairSpec' if liveness else 'Spec', 'family': family, 'cancel': 'TRUE' if cancel else 'FALSE',
-                 'dwc': 'TRUE' if dwc else 'FALSE', 'blocking': 'TRUE' if blocking else 'FALSE', 'props': props}
+    cfg = CFG % {'spec': 'FairSpec' if liveness else 'Spec', 'family': family, 'cancel': B(cancel), 'dwc': B(dwc), 'blocking': B(blocking),
+                 'split': B(split), 'allout': 'FALSE', 'detcap': 2, 'errcap': errcap, 'retries': 1, 'props': props}
     rc, out, td = vlib.tlc(vlib.SPEC, 'Engine', cfg, ctx.work, timeout_s=timeout_s, workers=workers or max(2, vlib.NCPU - 4))
     vlib.rmwork(td)
     st = vlib.tlc_stats(out)
@@ -47,25 +72,176 @@ def run_one(ctx, family, invariants, cancel, liveness=False, dwc=True, blocking=
 
 
 def model_part(ctx, pid):
-    """explores Engine.tla for the invariants relevant to property pid; quick: one-step family with cancellation;
-    thorough: also the two-step families (chain and fan-in) and the non-vacuity variants"""
+    """quick: one step with cancellation, atomic and split handlers (liveness for C01); thorough: chain and fan-in of two
+    steps, atomic (with and without cancellation) and split, plus the non-vacuity variants"""
     inv = SAFETY[pid]
-    runs = [('single', True, pid == 'C01')]
+    runs = [('single', True, pid == 'C01', False), ('single', True, False, True)]
     if not ctx.quick:
-        runs += [('chain2', False, False), ('fan2', False, False)]
-    for family, cancel, live in runs:
-        ok, viol, st, out = run_one(ctx, family, inv, cancel, liveness=live)
+        runs += [('chain2', False, False, False), ('fan2', False, False, False), ('chain2', False, False, True), ('fan2', False, False, True),
+                 ('chain2', True, False, False), ('fan2', True, False, False)]
+    for family, cancel, live, split in runs:
+        ok, viol, st, out = run_one(ctx, family, inv, cancel, liveness=live, split=split)
         ctx.cov(states=st.get('distinct', 0), transitions=st.get('generated', 0))
         if not ok:
-            ctx.inconclusive('Engine.tla family=%s cancel=%s: %s (a model-level prediction, to be reproduced on the engine): %s' % (
-                family, cancel, viol or 'TLC failed', out[-800:]))
+            ctx.inconclusive('Engine.tla family=%s cancel=%s split=%s: %s (a model-level prediction, to be reproduced on the engine): %s' % (
+                family, cancel, split, viol or 'TLC failed', out[-800:]))
     if not ctx.quick:
         # non-vacuity: the model of the engine before each repair must violate the invariant that led to the repair
         if pid == 'C01':
-            ok, viol, st, out = run_one(ctx, 'single', ['NoBlockedHolder'], True, blocking=True)
+            ok, viol, st, out = run_one(ctx, 'single', ['NoBlockedHolder'], True, blocking=True, errcap=1)
             if ok or not viol or 'NoBlockedHolder' not in viol:
                 ctx.inconclusive('Engine.tla with BlockingErrors = TRUE no longer violates NoBlockedHolder: the invariant became vacuous')
         if pid == 'C09':
             ok, viol, st, out = run_one(ctx, 'chain2', ['DetectorSoundModuloInFlight'], False, dwc=False)
             if ok or not viol or 'DetectorSoundModuloInFlight' not in viol:
                 ctx.inconclusive('Engine.tla with DeployWaitChecked = FALSE no longer violates DetectorSoundModuloInFlight: the invariant became vacuous')
+
+
+# ---------------------------------------------------------------------------------------------------------------
+# strict mode
+
+STRICT_CFG = '''SPECIFICATION TSpec
+CONSTANTS
+ Family = "%s"
+ ErrCap = 20
+ Retries = 3
+ AllowCancel = TRUE
+ DeployWaitChecked = TRUE
+ AllOutcomes = TRUE
+ DetCap = 60
+ SplitHandlers = TRUE
+ BlockingErrors = FALSE
+ TraceFile = "trace.json"
+ StopAt = 0
+CONSTRAINT Mark
+POSTCONDITION Accepted
+CHECK_DEADLOCK FALSE
+'''
+
+
+def family_wf(fam):
+    a = {'kind': 'plugin', 'pstep': 'work', 'fields': {'input': tmap({'id': lit('a')})}}
+    if fam == 'single':
+        return {'steps': {'a': a}, 'outputs': {'success': tmap({'r': ref('steps.a.outputs.success.tok')})}}
+    if fam == 'chain2':
+        b = {'kind': 'plugin', 'pstep': 'work', 'fields': {'input': tmap({'id': lit('b'), 'deps': tmap({'x': ref('steps.a.outputs.success')})})}}
+        return {'steps': {'a': a, 'b': b}, 'outputs': {'success': tmap({'r': ref('steps.b.outputs.success')})}}
+    b = {'kind': 'plugin', 'pstep': 'work', 'fields': {'input': tmap({'id': lit('b')})}}
+    return {'steps': {'a': a, 'b': b}, 'outputs': {'success': tmap({'r': ref('steps.a.outputs.success'), 'q': ref('steps.b.outputs.success')})}}
+
+
+def strict_scenarios(rng, n, gates, points):
+    """(family, description, scenario) triples: random outcomes / cancellation / noise, one stall at a gate, or a
+    cancellation triggered at a hook point"""
+    out = []
+    inp = {'x': 'x', 'n': 1, 'flag': False}
+    for k in range(n):
+        fam = ['single', 'chain2', 'fan2'][k % 3]
+        wf = family_wf(fam)
+        steps = list(wf['steps'])
+        mode = ['random', 'stall', 'cancel-at'][(k // 3) % 3]
+        script = {}
+        for s in steps:
+            o = rng.choice(['success', 'success', 'error', 'crash', 'deployfail', 'hang']) if mode == 'random' else rng.choice(['success', 'success', 'error'])
+            script[s] = {'exec': {'out': 'success' if o in ('crash', 'deployfail', 'hang') else o, 'crash': o == 'crash', 'hang': o == 'hang',
+                                  'delay_ms': rng.choice([0, 2, 10, 30]), 'on_cancel': rng.choice(['', '', 'ignore'])},
+                         'deploy': {'fail': o == 'deployfail', 'delay_ms': rng.choice([0, 0, 8])}}
+        sc = None
+        if mode == 'random':
+            cancel = rng.choice([None, None, 3, 10, 25, 60])
+            if any(script[s]['exec']['hang'] for s in steps) and cancel is None:
+                cancel = 40
+            sch = gen.noise_schedule(rng, max_us=rng.choice([200, 1000, 3000])) if rng.random() < 0.7 else None
+            sc = gen.make_scenario(wf, script, inp, sch, timeout_ms=30000)
+            if cancel is not None:
+                sc['runs'] = [{'input': inp, 'cancel_after_ms': cancel}]
+            desc = 'outcomes %s cancel=%s' % ({s: ('deployfail' if script[s]['deploy']['fail'] else 'crash' if script[s]['exec']['crash'] else 'hang' if script[s]['exec']['hang'] else script[s]['exec']['out']) for s in steps}, cancel)
+        elif mode == 'stall':
+            pt, st, nth = rng.choice(gates), rng.choice(steps + ['']), rng.choice([1, 2])
+            sc = gen.make_scenario(wf, script, inp, {'stalls': [{'point': pt, 'step': st, 'nth': nth, 'ms': rng.choice([50, 90])}]}, timeout_ms=30000)
+            desc = 'stall %s@%s#%d' % (pt, st, nth)
+        else:
+            pt, st, nth = rng.choice(points), rng.choice(steps + ['']), rng.choice([1, 2])
+            script[steps[-1]]['exec']['hang'] = True
+            sc = gen.make_scenario(wf, script, inp, {'triggers': [{'point': pt, 'step': st, 'nth': nth, 'action': 'cancel', 'run': 0}],
+                                                     'noise_seed': rng.randint(1, 1 << 30), 'noise_max_us': 300}, timeout_ms=30000)
+            sc['runs'] = [{'input': inp, 'cancel_after_ms': 500}]
+            desc = 'cancel at %s@%s#%d' % (pt, st, nth)
+        out.append((fam, '%s: %s' % (fam, desc), sc))
+    return out
+
+
+def validate_events(evs, family, work, name, keep=False):
+    """one TLC run of EngineStrict.tla over one projected trace; returns (accepted, index of the first event that could
+    not be consumed or None, tail of TLC output)"""
+    d = os.path.join(work, name)
+    os.makedirs(d, exist_ok=True)
+    shutil.copy(os.path.join(vlib.SPEC, 'Engine.tla'), d)
+    shutil.copy(os.path.join(vlib.SPEC, 'trace', 'EngineStrict.tla'), d)
+    json.dump(evs, open(os.path.join(d, 'trace.json'), 'w'))
+    open(os.path.join(d, 'EngineStrict.cfg'), 'w').write(STRICT_CFG % family)
+    env = dict(os.environ, JAVA_TOOL_OPTIONS='-Dtlc2.tool.queue.IStateQueue=StateDeque -Xss64m')
+    p = subprocess.run(['timeout', '300', 'tlc', '-workers', '1', '-metadir', os.path.join(d, 'md'), 'EngineStrict.tla'], cwd=d, capture_output=True, text=True, env=env)
+    out = p.stdout + p.stderr
+    ok = p.returncode == 0 and 'No error has been found' in out
+    m = re.search(r'"STUCK", (\d+)', out)
+    ran = ok or m is not None
+    st = vlib.tlc_stats(out)
+    if not keep:
+        shutil.rmtree(d, ignore_errors=True)
+    return ok, (int(m.group(1)) if m else None), ran, st, out[-600:]
+
+
+def strict_part(ctx, n_quick=24, n_thorough=600, gates=(), points=()):
+    rng = random.Random(ctx.seed * 31337 + 9)
+    scs = strict_scenarios(rng, n_quick if ctx.quick else n_thorough, list(gates), list(points))
+    binary = ctx.binary()
+    results = vlib.run_scenarios(binary, [x[2] for x in scs], ctx.work, prefix='x')
+    jobs = []
+    for (fam, desc, sc), r in zip(scs, results):
+        if r['result'] is None or r['code'] not in (0, 3) or not os.path.exists(r['trace']):
+            ctx.inconclusive('strict mode: harness died for %s: %s' % (desc, (r['stderr'] or '')[-200:]))
+            continue
+        runs = strict.one_run_events(r['trace'])
+        if runs:
+            jobs.append((fam, desc, runs[0], os.path.basename(r['dir'])))
+    with cf.ThreadPoolExecutor(max_workers=max(2, vlib.NCPU // 2)) as ex:
+        outs = list(ex.map(lambda j: validate_events(j[2], j[0], ctx.work, 'strict-' + j[3]), jobs))
+    accepted, events, states = 0, 0, 0
+    good = []
+    for (fam, desc, evs, name), (ok, stuck, ran, st, tail) in zip(jobs, outs):
+        states += st.get('distinct', 0)
+        if not ran:
+            ctx.inconclusive('EngineStrict.tla did not run for %s: %s' % (desc, tail))
+        elif ok:
+            accepted += 1
+            events += len(evs)
+            good.append((fam, evs))
+        else:
+            e = evs[stuck - 1] if stuck and stuck <= len(evs) else {}
+            ctx.add('DRIFT', 'execution-is-not-a-behaviour-of-Engine.tla', '%s: event %s of %d not allowed: %s' % (
+                desc, stuck, len(evs), {k: v for k, v in e.items() if v not in ('nil', -1, 0, True, False)}))
+    # binding self-test: a corrupted trace must be rejected
+    rejected = 0
+    tried = 0
+    for fam, evs in good[:6]:
+        e2 = [dict(x) for x in evs]
+        cand = [j for j, x in enumerate(e2) if x['k'] in ('Set', 'HB', 'Prov', 'Slot', 'Res', 'HE', 'Exit')]
+        if not cand:
+            continue
+        i = rng.choice(cand)
+        kind = tried % 3
+        if kind == 0:
+            del e2[i]
+        elif kind == 1 and e2[i]['k'] == 'Set':
+            e2[i]['state'] = 'waiting_for_input' if e2[i]['state'] != 'waiting_for_input' else 'running'
+        else:
+            e2.insert(i, dict(e2[i]))
+        tried += 1
+        ok, stuck, ran, st, tail = validate_events(e2, fam, ctx.work, 'strict-self-%d' % tried)
+        if ran and not ok:
+            rejected += 1
+        elif ran:
+            ctx.inconclusive('strict mode self-test: a corrupted trace (%s event %d) was accepted by EngineStrict.tla - the binding is lost' % (['dropped', 'changed', 'duplicated'][kind], i + 1))
+    ctx.cov(strict_traces=len(jobs), strict_accepted=accepted, strict_events=events, strict_selftest_rejected='%d/%d' % (rejected, tried),
+            states=states, traces_validated_against_impl=accepted)
